@@ -237,6 +237,19 @@ def run_shard(shard: dict, ctx, res, only=None) -> None:
                                           f"requested fch1={val!r} (channel {k}), nchans={m}: got rows starting with {np.asarray(b.data)[:, 0].tolist()} want {want[:, 0].tolist()}")
 
                     guard("FilReader.read_block(fch1,nchans)", [k, m, how], f_sel)
+        # selections that do not fit the band: refusing is fine; if one is accepted, the header must still describe the rows that were returned
+        for k in range(C):
+            for m in (C - k + 1, C - k + 3, C + 1):
+                if only is not None and only[0] != "FilReader.read_block(selection beyond the band)":
+                    continue
+                try:
+                    b = fil.read_block(2, 4, fch1=float(f32[k]), nchans=m)
+                except Exception:  # noqa: BLE001
+                    res.outcome("read_block_selection/beyond_band_refused")
+                    continue
+                rows = b.data.shape[0]
+                chk.check("FilReader.read_block(selection beyond the band)", [k, m], b.header, shape=(b.data.shape[1], rows),
+                          src=[[c] for c in range(k, min(C, k + rows))] if k + rows <= C else None, start=2, kind="read_block_selection")
     elif g == "blocks":
         blk = fil.read_block(1, 10)
         Hb = blk.header
